@@ -129,6 +129,7 @@ func init() {
 			c.und("upper-bound", "NewIterator implementations", "", fmt.Sprintf("only %d found", nu))
 		}
 		c15UpperBoundTruncated(c)
+		c15PebbleBatch(c)
 		// interface-complete
 		get := func(n string) *types.Interface {
 			t := p.lookupType("db", n)
@@ -368,5 +369,61 @@ func c15UpperBoundTruncated(c *Ctx) {
 	}
 	if n == 0 {
 		c.und("upper-bound-truncated", "dbutils.UpperBound", p.Pos(fnPos(f)), "no non-nil result found")
+	}
+}
+
+
+// c15PebbleBatch: the Pebble-backed batch is one unit of atomicity with its own read view. (commit-only-in-write) the
+// underlying pebble batch is committed/applied only by the batch's Write method — a Put or Delete that commits on its own
+// ("spill" when the batch grows, seeded change C05-J) splits what the callers treat as one atomic unit; (batch-view) the
+// batch's readers (Get/Has/NewIterator) read through the underlying indexed pebble batch, never through the database the
+// batch belongs to — a shortcut to the database's iterator (seeded change C15-J: when the tracked size is 0) ignores the
+// batch's own pending range deletes.
+func c15PebbleBatch(c *Ctx) {
+	p := c.P
+	for _, pkg := range []string{"db/pebble", "db/pebblev2"} {
+		nw := 0
+		for _, fn := range p.sortedFuncs() {
+			if pkgRelOf(fn) != pkg || fn.Signature.Recv() == nil || recvName(fn.Signature.Recv().Type()) != "batch" || len(fn.Blocks) == 0 {
+				continue
+			}
+			reach := p.Reachable([]*ssa.Function{fn}, func(caller, callee *ssa.Function) bool { return pkgRelOf(callee) != pkg })
+			for _, g := range reach.Funcs() {
+				for _, s := range sitesOf(g) {
+					nm := s.CalleeName()
+					isPebble := strings.Contains(nm, "cockroachdb/pebble")
+					if isPebble && (strings.HasSuffix(nm, "Batch).Commit") || strings.HasSuffix(nm, "Batch).Apply") || strings.HasSuffix(nm, "DB).Apply")) && fn.Name() != "Write" {
+						c.viol("batch-commit-only-in-write", pkg+".batch."+fn.Name(), p.Pos(s.Pos()), "the pebble batch is committed from "+fn.Name()+" (via "+reach.Path(g)+"): the batch no longer is one atomic unit — what was buffered so far becomes durable although the caller may still fail and drop the batch")
+					}
+					if isPebble && strings.HasSuffix(nm, "Batch).Commit") && fn.Name() == "Write" {
+						nw++
+					}
+				}
+			}
+			// batch-view
+			switch fn.Name() {
+			case "Get", "Has", "NewIterator":
+				bad := ""
+				for _, g := range reach.Funcs() {
+					for _, s := range sitesOf(g) {
+						if s.Callee != nil && s.Callee.Signature.Recv() != nil && pkgRelOf(s.Callee) == pkg && recvName(s.Callee.Signature.Recv().Type()) == "DB" {
+							switch s.Callee.Name() {
+							case "Get", "Has", "NewIterator", "NewSnapshot":
+								bad = s.Callee.Name()
+							}
+						}
+						if nm := s.CalleeName(); strings.Contains(nm, "cockroachdb/pebble") && (strings.HasSuffix(nm, "DB).NewIter") || strings.HasSuffix(nm, "DB).Get")) {
+							bad = nm
+						}
+					}
+				}
+				c.check(bad == "", "batch-view", pkg+".batch."+fn.Name(), p.Pos(fnPos(fn)), "reads through the underlying indexed batch", "the batch's "+fn.Name()+" reads the database directly ("+bad+"): writes and range deletes pending in the batch are invisible to it")
+			}
+		}
+		if nw == 0 {
+			c.und("batch-commit-only-in-write", pkg+".batch.Write", "", "the commit of the underlying batch was not found")
+		} else {
+			c.ok("batch-commit-only-in-write", pkg+".batch", "", "the underlying batch is committed only by Write")
+		}
 	}
 }
